@@ -278,4 +278,51 @@ theorem ltWords_spec (xs ns : List Nat) (hlen : xs.length = ns.length) (hx : Wf 
   rw [ltBE_spec _ _ (by simp [hlen]) (Wf_reverse.2 hx) (Wf_reverse.2 hn)]
   simp
 
+/-! ### take / drop / zero words -/
+
+theorem val_take_drop (x : List Nat) (k : Nat) : val x = val (x.take k) + W ^ k * val (x.drop k) := by
+  by_cases h : k ≤ x.length
+  · conv_lhs => rw [← List.take_append_drop k x]
+    rw [val_append, List.length_take, Nat.min_eq_left h]
+  · simp [List.take_of_length_le (show x.length ≤ k by omega), List.drop_eq_nil_of_le (show x.length ≤ k by omega)]
+
+theorem allZero_of_val_eq_zero (l : List Nat) (h : val l = 0) : allZero l = true := by
+  induction l with
+  | nil => rfl
+  | cons a l ih =>
+    simp only [val_cons] at h
+    have ha : a = 0 := by omega
+    have hl : val l = 0 := by
+      have : W * val l = 0 := by omega
+      rcases Nat.mul_eq_zero.1 this with h | h
+      · exact absurd h (by decide)
+      · exact h
+    simp only [allZero, List.all_cons, ha, beq_self_eq_true, Bool.true_and]
+    exact ih hl
+
+theorem val_take_lt {x : List Nat} (h : Wf x) (k : Nat) : val (x.take k) < W ^ k := by
+  have h1 := val_lt (Wf_take h k)
+  have h2 : (x.take k).length ≤ k := by rw [List.length_take]; exact Nat.min_le_left _ _
+  exact lt_of_lt_of_le h1 (Nat.pow_le_pow_right W_pos h2)
+
+/-- if the value is below `W^k` the words from index `k` on are zero -/
+theorem val_drop_eq_zero {x : List Nat} {k : Nat} (hv : val x < W ^ k) : val (x.drop k) = 0 := by
+  have e := val_take_drop x k
+  by_contra hne
+  have : 1 ≤ val (x.drop k) := Nat.pos_of_ne_zero hne
+  have : W ^ k * 1 ≤ W ^ k * val (x.drop k) := Nat.mul_le_mul_left _ this
+  omega
+
+theorem drop_cons_getD (x : List Nat) (k : Nat) (h : k < x.length) :
+    x.drop k = x.getD k 0 :: x.drop (k + 1) := by
+  rw [List.drop_eq_getElem_cons h]; simp [List.getD_eq_getElem?_getD, List.getElem?_eq_getElem h]
+
+theorem ofNat_zero (m : Nat) : ofNat m 0 = zeros m := by
+  induction m with
+  | zero => rfl
+  | succ m ih => simp [ofNat, ih, zeros, List.replicate_succ]
+
+theorem allZero_zeros (m : Nat) : allZero (zeros m) = true := by
+  simp [allZero, zeros]
+
 end Ymq.Limbs
